@@ -550,3 +550,111 @@ def r_geom(repo, tier):
             if not sinks:
                 out.report(rel, f.dqual, "geometry field %s unused" % fld, fn.lineno, "%s %s the header field %s but it never reaches a read position, subscript or loop bound: the table is located with something else than what the file declares" % (qual, "reads" if present else "never reads", fld))
     return out
+
+
+# =========================================================================================== C15
+SEGIMG = [
+    # (file, class, method, [(file-size field, memory-size field)], helpers whose reads count)
+    ("amoco/system/elf.py", "Elf", "loadsegment", ("p_filesz", "p_memsz")),
+    ("amoco/system/pe.py", "PE", "loadsegment", ("SizeOfRawData", "VirtualSize")),
+    ("amoco/system/macho.py", "MachO", "loadsegment", ("filesize", "vmsize")),
+]
+
+
+def r_segimg(repo, tier):
+    out = RuleOut(
+        "R-SEGIMG",
+        "every loadsegment of a format class derives the returned image from both the file-size and the memory-size field "
+        "of its segment type (an image that does not depend on the memory size cannot be zero-filled up to it); every "
+        "ljust() padding of an image passes an explicit all-zero fill byte (bytes.ljust pads with 0x20 by default)",
+    )
+    for rel, cname, mname, (fsz, msz) in SEGIMG:
+        m = repo.mod(rel)
+        c = m.classes.get(cname)
+        if c is None or mname not in c.methods:
+            raise AnalysisError("anchor vanished: %s.%s" % (cname, mname))
+        f = c.methods[mname]
+        # attributes read in the method and in the self.* helpers it calls (one level)
+        reads = set()
+        fns = [f]
+        for x in ast.walk(f.node):
+            if isinstance(x, ast.Call) and isinstance(x.func, ast.Attribute) and isinstance(x.func.value, ast.Name) and x.func.value.id == "self":
+                g = repo.find_method(c, x.func.attr)
+                if g is not None:
+                    fns.append(g)
+        for g in fns:
+            for x in ast.walk(g.node):
+                if isinstance(x, ast.Attribute) and isinstance(x.ctx, ast.Load):
+                    reads.add(x.attr)
+        out.inst("%s::%s.%s" % (rel, cname, mname), {"method": "%s.%s" % (cname, mname), "file_size_field": fsz, "memory_size_field": msz, "reads_file_size": fsz in reads, "reads_memory_size": msz in reads})
+        for fld, what in ((fsz, "file size"), (msz, "memory size")):
+            if fld not in reads:
+                out.report(rel, f.dqual, "%s never read" % fld, f.node.lineno, "%s.%s never reads the segment's %s field %s: the returned image cannot %s" % (cname, mname, what, fld, "be zero-filled up to the size the segment occupies in memory" if what == "memory size" else "be limited to the file-backed part"))
+        # ljust fill byte
+        for g in fns:
+            for x in ast.walk(g.node):
+                if isinstance(x, ast.Call) and isinstance(x.func, ast.Attribute) and x.func.attr == "ljust":
+                    ok = len(x.args) >= 2 and isinstance(x.args[1], ast.Constant) and isinstance(x.args[1].value, bytes) and x.args[1].value.strip(b"\0") == b""
+                    out.inst("%s::%s" % (g.key, norm(x)[-50:]), {"method": g.dqual, "padding": norm(x)[-70:], "explicit_zero_fill": ok})
+                    if not ok:
+                        out.report(rel, g.dqual, "ljust without zero fill: %s" % norm(x)[-60:], x.lineno, "the image is padded with bytes.ljust without an explicit zero fill byte: the padding is 0x20 (space), not zero")
+    return out
+
+
+def r_loaderpc(repo, tier):
+    out = RuleOut(
+        "R-LOADPC",
+        "every OS loader (load_elf_binary / load_pe_binary / load_macho_binary) stores the file's entry point "
+        "(<bin>.entrypoints[0], directly, through a local, or with Task.setx) into the task state, and that store is not "
+        "conditional on anything but the kind of load command being processed (it sits at the top level of the loader or "
+        "only under `for` loops / tests of the command type)",
+    )
+    n = 0
+    for m in repo.modules.values():
+        if not m.name.startswith("amoco.system."):
+            continue
+        for f in m.functions.values():
+            if f.name not in ("load_elf_binary", "load_pe_binary", "load_macho_binary"):
+                continue
+            n += 1
+            evars = set()
+            for x in ast.walk(f.node):
+                if isinstance(x, ast.Assign) and "entrypoints" in norm(x.value):
+                    for t in x.targets:
+                        if isinstance(t, ast.Name):
+                            evars.add(t.id)
+
+            def derived(e):
+                return "entrypoints" in norm(e) or bool({z.id for z in ast.walk(e) if isinstance(z, ast.Name)} & evars)
+
+            stores = []
+
+            def walk(stmts, guards):
+                for s in stmts:
+                    if isinstance(s, ast.Assign) and any(isinstance(t, ast.Subscript) and norm(t.value).endswith(".state") for t in s.targets) and derived(s.value):
+                        stores.append((s, list(guards)))
+                    elif isinstance(s, ast.Expr) and isinstance(s.value, ast.Call) and isinstance(s.value.func, ast.Attribute) and s.value.func.attr == "setx" and any(derived(a) for a in s.value.args):
+                        stores.append((s, list(guards)))
+                    elif isinstance(s, ast.If):
+                        walk(s.body, guards + [("if", norm(s.test))])
+                        walk(s.orelse, guards + [("if", norm(s.test))])
+                    elif isinstance(s, (ast.For, ast.While)):
+                        walk(s.body, guards + [("loop", norm(s.iter) if isinstance(s, ast.For) else norm(s.test))])
+                    elif isinstance(s, (ast.With, ast.Try)):
+                        walk(s.body, guards)
+
+            walk(f.node.body, [])
+            ok = False
+            for s, g in stores:
+                if all(k == "loop" or ".cmd" in t or "p_type" in t for k, t in g):
+                    ok = True
+            out.inst(f.key, {"loader": f.key, "entry_stores": [norm(s)[:70] for s, _ in stores], "unconditional": ok})
+            if not stores:
+                out.report(f.file, f.dqual, "no entry point store", f.node.lineno, "%s never stores <bin>.entrypoints[0] into the task state: the program counter of the loaded task is not the file's entry point" % f.dqual)
+            elif not ok:
+                s, g = stores[0]
+                out.report(f.file, f.dqual, "conditional entry point store: %s" % norm(s)[:60], s.lineno, "%s stores the entry point only under %s" % (f.dqual, [t for k, t in g if k == "if"]))
+    out.stats["loaders"] = n
+    if n < 10:
+        raise AnalysisError("R-LOADPC: only %d OS loaders found (12 expected)" % n)
+    return out
